@@ -110,6 +110,11 @@ violation_kind()
 {
     return g_viol_kind;
 }
+void
+clear_violation()
+{
+    g_has_viol = false;
+}
 int
 open_owned_count()
 {
@@ -233,6 +238,10 @@ extern "C"
         if (!owned) {
             viol(it == g_fds.end() ? "write-foreign" : "write-stale", "pwrite(%d, %zu bytes): %s", fd, n,
                  it == g_fds.end() ? "the device never opened this descriptor" : "descriptor was already closed by the device");
+            // what the OS would do: if the number names some other open file of the process the write goes
+            // there (and succeeds); only a number that names nothing fails with EBADF
+            if (fd >= 3 && ::fcntl(fd, F_GETFD) != -1)
+                return ::pwrite(fd, buf, n, off);
             g_st.op_pwrite_errors++;
             errno = EBADF;
             return -1;
@@ -273,6 +282,8 @@ extern "C"
         auto it = g_fds.find(fd);
         if (it == g_fds.end() || !it->second.open) {
             viol("flock-foreign", "flock(%d): not a descriptor the device holds", fd);
+            if (fd >= 3 && ::fcntl(fd, F_GETFD) != -1)
+                return ::flock(fd, op); // (as the OS would: some other file of the process gets locked)
             errno = EBADF;
             return -1;
         }
